@@ -494,11 +494,18 @@ async fn send_segments(s: &mut TcpStream, segs: &[Vec<u8>]) {
     }
 }
 
-async fn hold_until_closed(s: &mut TcpStream) {
+/// Stall: say nothing and keep the connection until the client gives up.  An HTTP client closes when its
+/// time-out fires (read returns 0).  The Ribbit client half-closes right after its command, so there the end of
+/// its stream means nothing: the socket is simply kept for longer than the client's 30 s read time-out.
+async fn hold_until_closed(s: &mut TcpStream, half_closed_peer: bool) {
     let mut buf = [0u8; 256];
     let _ = tokio::time::timeout(Duration::from_secs(120), async {
         loop {
             match s.read(&mut buf).await {
+                Ok(0) if half_closed_peer => {
+                    tokio::time::sleep(Duration::from_secs(45)).await;
+                    break;
+                }
                 Ok(0) | Err(_) => break,
                 Ok(_) => {}
             }
@@ -618,7 +625,7 @@ async fn http_conn(mut s: TcpStream, ep: &'static str, row: Arc<RowCtx>) {
     } else if beh == "ClosedEmpty" {
         let _ = s.shutdown().await;
     } else if beh == "Stall" {
-        hold_until_closed(&mut s).await;
+        hold_until_closed(&mut s, false).await;
     } else {
         panic!("driver: unknown http behaviour {beh}");
     }
@@ -663,7 +670,7 @@ async fn tcp_conn(mut s: TcpStream, row: Arc<RowCtx>) {
     } else if beh == "ClosedEmpty" {
         let _ = s.shutdown().await;
     } else if beh == "Stall" {
-        hold_until_closed(&mut s).await;
+        hold_until_closed(&mut s, true).await;
     } else {
         panic!("driver: unknown tcp behaviour {beh}");
     }
